@@ -14,6 +14,7 @@ From mathcomp Require Import all_ssreflect all_algebra.
 Require Import TSS.Alg.SSS TSS.Alg.DKGAlg.
 Import GRing.Theory.
 Local Open Scope ring_scope.
+Delimit Scope Z_scope with ZZ.
 
 Section PerParty.
 Variables (S V C : Type) (add : S -> S -> S) (pub : S -> V) (H : V -> C) (C_eqb : C -> C -> bool).
@@ -24,7 +25,7 @@ Let outputs := outputs S V C add pub H C_eqb crosscheck tpk_of parties self deal
 (* "No honest party discloses its public-key contribution before it holds the commitments of all other participants":
    in every run (any events, any order) the step that broadcasts the key starts in a state holding n-1 commitments. *)
 Theorem C05_no_early_reveal : forall evs pk, List.In (BcastReveal pk) (outputs evs) ->
-  exists evs1 e evs2, evs = evs1 ++ e :: evs2 /\ length (commits S V C (final evs1)) = (n parties - 1)%coq_nat.
+  exists evs1 e evs2, evs = evs1 ++ e :: evs2 /\ length (commits S V C (final evs1)) = (DKG.n parties - 1)%coq_nat.
 Proof. exact: no_early_reveal. Qed.
 
 (* once its context is done the party sends nothing any more; the only output left is the error return *)
@@ -35,7 +36,7 @@ Proof. exact: ctx_done_silent. Qed.
 (* an Ok result is the closed form of the own share and the FIRST values received (DKG.final_first), every commitment
    matched its key and the cross-check accepted the assembled list *)
 Theorem C05_outcome_closed_form : forall evs sk0 pkl tpk, ph S V C (final evs) = Done sk0 pkl tpk ->
-  DKG.combine S add (shares S V C (final evs)) (DKG.others parties self) (dealt self) = Some sk0 /\
+  DKG.combine S add (DKG.shares S V C (final evs)) (DKG.others parties self) (dealt self) = Some sk0 /\
   DKG.lookup (pkeys S V C (final evs)) self = Some (pub sk0) /\
   DKG.key_list V (pkeys S V C (final evs)) parties = Some pkl /\
   (forall p v, List.In p parties -> p <> self -> DKG.lookup (pkeys S V C (final evs)) p = Some v ->
@@ -52,3 +53,73 @@ Print Assumptions C05_no_early_reveal.
 Print Assumptions C05_cancelled_is_silent.
 Print Assumptions C05_outcome_closed_form.
 Print Assumptions C05_never_panics.
+
+Section System.
+Variables (S V C : Type) (add : S -> S -> S) (pub : S -> V) (H : V -> C) (C_eqb : C -> C -> bool).
+Variables (crosscheck : list V -> bool) (tpk_of : list V -> V) (parties : list nat).
+Variables (honest : nat -> Prop) (dealt : nat -> nat -> S) (tr : trace S V C).
+Let fin := fin S V C add pub H C_eqb crosscheck tpk_of parties dealt tr.
+Hypothesis net : Network S V C add pub H C_eqb crosscheck tpk_of parties honest dealt tr.
+
+(* honest parties never complete with differing public material: all that return Ok return the same (tpk, pks) *)
+Theorem C05_consistent : forall i i' sk pkl tpk sk' pkl' tpk',
+  honest i -> honest i' -> List.In i parties -> List.In i' parties ->
+  ph S V C (fin i) = Done sk pkl tpk -> ph S V C (fin i') = Done sk' pkl' tpk' ->
+  pkl = pkl' /\ tpk = tpk'.
+Proof. exact: C05_consistent net. Qed.
+
+(* a revealed key that does not match its commitment => no honest party (other than the sender) returns Ok;
+   with C05_never_panics: every honest party that finishes returns an error *)
+Theorem C05_detects_commitment : (forall a b, C_eqb a b = true -> a = b) ->
+  forall i i1 i2 j c v sk pkl tpk,
+  honest i -> honest i1 -> honest i2 -> List.In j parties -> j <> i ->
+  List.In (i1, DeliverCommit j c) tr -> List.In (i2, DeliverReveal j (Some v)) tr -> c <> H v ->
+  ph S V C (fin i) <> Done sk pkl tpk.
+Proof. exact: C05_detects_commitment net. Qed.
+End System.
+Print Assumptions C05_consistent.
+Print Assumptions C05_detects_commitment.
+
+Section Algebra.
+Variables (F : fieldType) (G : lmodType F) (g : G).
+Hypothesis g_neq0 : g != 0.
+Hypothesis g_gen : forall v : G, exists a : F, v = a *: g.        (* a cyclic group generated by g (G2, g2) *)
+Variables (C : Type) (Hc : G -> C) (C_eqb : C -> C -> bool) (n t : nat).
+Hypothesis tn : (0 < t <= n)%N.
+Hypothesis sm : small F n.                                          (* n < char F: parties 1..n are distinct non-zero points *)
+Variables (honest : nat -> Prop) (dealt : nat -> nat -> F) (tr : trace F G C).
+Let cc := cc (G:=G) n t.
+Let tpk_of := tpk_of (G:=G) n t.
+Let fin := DKGSystem.fin F G C +%R (pubk g) Hc C_eqb cc tpk_of (parties n) dealt tr.
+Hypothesis net : Network F G C +%R (pubk g) Hc C_eqb cc tpk_of (parties n) honest dealt tr.
+
+(* If an honest party returns Ok then the listed keys of all n parties lie on ONE polynomial p of degree < t, the reported
+   threshold key is g^p(0), and every honest party that returned Ok holds the same material and the share p(its index):
+   "shares that can jointly sign under the reported key" (C01_sign).  Every 1 <= t <= n, t = n included. *)
+Theorem C05_keys_on_polynomial : forall i sk pkl tpk, honest i -> (0 < i <= n)%N -> ph F G C (fin i) = Done sk pkl tpk ->
+  exists p : {poly F},
+    [/\ (size p <= t)%N, forall x, (0 < x <= n)%N -> key_of pkl x = p.[pt F x] *: g, tpk = p.[0] *: g &
+        forall j sk' pkl' tpk', honest j -> (0 < j <= n)%N -> ph F G C (fin j) = Done sk' pkl' tpk' ->
+          [/\ pkl' = pkl, tpk' = tpk & sk' = p.[pt F j]]].
+Proof. move=> i sk pkl tpk; exact (DKGAlg.C05_keys_on_polynomial g_neq0 g_gen tn sm net (i:=i) (sk:=sk) (pkl:=pkl) (tpk:=tpk)). Qed.
+
+(* the contrapositive: keys not on one polynomial of degree < t => the party does not return Ok *)
+Theorem C05_detects_polynomial : forall i sk pkl tpk, (0 < i <= n)%N ->
+  ~ (exists p : {poly F}, (size p <= t)%N /\ forall x, (0 < x <= n)%N -> key_of pkl x = p.[pt F x] *: g) ->
+  ph F G C (fin i) <> Done sk pkl tpk.
+Proof.
+move=> i sk pkl tpk.
+exact (DKGAlg.C05_detects_polynomial g_neq0 g_gen (Hc:=Hc) (C_eqb:=C_eqb) tn sm (dealt:=dealt) (tr:=tr) (i:=i) (sk:=sk) (pkl:=pkl) (tpk:=tpk)).
+Qed.
+End Algebra.
+Print Assumptions C05_keys_on_polynomial.
+Print Assumptions C05_detects_polynomial.
+
+(* non-vacuity, by computation on the model in the exponent (n = 3, t = 2, party 1): an honest run reaches Ok with keys
+   on the line 10 + 11 x; a key moved off the line, a key not matching its commitment and a withheld commitment end in errors *)
+Example C05_example :
+  run_party 3 2 1 5%ZZ [ES 2 7; ES 3 9; EC 2 32; EC 3 43; ER 2 32; ER 3 43]%ZZ = (VOk 21%ZZ [:: 21; 32; 43]%ZZ 10%ZZ, [:: 2; 3]%N) /\
+  run_party 3 2 1 5%ZZ [ES 2 7; ES 3 9; EC 2 33; EC 3 43; ER 2 33; ER 3 43]%ZZ = (VErr, [:: 2; 3]%N) /\
+  run_party 3 2 1 5%ZZ [ES 2 7; ES 3 9; EC 2 32; EC 3 43; ER 2 33; ER 3 43]%ZZ = (VErr, [:: 2; 3]%N) /\
+  run_party 3 2 1 5%ZZ [ES 2 7; ES 3 9; EC 2 32; ER 2 32; ER 3 43; EX]%ZZ = (VErr, [:: 2]%N).
+Proof. by vm_compute. Qed.
